@@ -96,6 +96,8 @@ func (e *Engine) lookupMethod(recv Iface, m *types.Func) Value {
 		return specialMethod{"ctxStub." + m.Name()}
 	case *hashStub:
 		return specialMethod{"hashStub." + m.Name()}
+	case *fsNode:
+		return specialMethod{"fsFileInfo." + m.Name()}
 	}
 	ms := e.prog.MethodSets.MethodSet(recv.T)
 	sel := ms.Lookup(m.Pkg(), m.Name())
